@@ -260,7 +260,23 @@ def c09():
                  "single faults only; a fault is an error return of one device call (no short transfers, no silent corruption)"])
 
 
-CHECKS = {"C09": c09, "C01": c01, "C02": c02, "C03": c03, "C04": c04, "C05": c05, "C12": c12, "C13": c13}
+def c14():
+    t0 = time.time()
+    wd = workdir("C14")
+    rng = rng_for("C14", 0)
+    progs = []
+    for kname in ["K1b", "K2", "K5"] + (["K3", "K4b"] if core.tier() == "thorough" else []):
+        for i in range(scale(12, 120)):
+            progs.append(gen.crash_program(rng, "crash-%s-%d" % (kname, i), gen.K(kname), CS[kname]))
+    res = [("crash", core.campaign("crash", progs, wd))]
+    core.finish("C14", "fault_enumeration", res, None, t0,
+                "histories with flush/close points followed by unrelated activity; for every prefix of the device write log after the first flush the "
+                "image left by a power cut is mounted afresh; TLC (TraceFatFs crash events) requires every file flushed before that point and not "
+                "modified since to be found with exactly the flushed content; distinct = (op, result) shapes incl. crash events",
+                ASSUME_TRACE + ["power cut = loss of a suffix of the device write sequence (write-back cache honouring flush; no reordering, no torn writes)"])
+
+
+CHECKS = {"C09": c09, "C14": c14, "C01": c01, "C02": c02, "C03": c03, "C04": c04, "C05": c05, "C12": c12, "C13": c13}
 
 
 def run(prop):
